@@ -172,7 +172,16 @@ def build_argv(rng, rec, tmp, idx, allow_files=True, in_process=True):
         m = max(kw["min_dur"], rng.choice((5, 15, 25, 100, 300)) * win)
         argv += [rng.choice(("-m", "--max-duration")), repr(m)]
         kw["max_dur"] = m
-    if kw["min_dur"] > kw["max_dur"]:  # keep the tuple valid: an invalid one is a user error, not the tool's
+    if rng.random() < 0.08:
+        # min and max of the SAME number of windows, written the way arithmetic and people write them: k*w (0.07000000000000001)
+        # against the decimal literal (0.07) - in seconds min exceeds max by one ulp, in windows they are equal
+        k = rng.choice((3, 7, 11, 13))
+        n, m = k * win, float(repr(round(k * win, 6)))
+        if n > m:
+            argv += ["-n", repr(n), "-m", repr(m)]
+            kw["min_dur"], kw["max_dur"] = n, m
+            meta["min_dur_one_ulp_above_max_dur"] = True
+    if kw["min_dur"] > kw["max_dur"] and not meta.get("min_dur_one_ulp_above_max_dur"):  # keep the tuple valid: an invalid one is a user error, not the tool's
         m = kw["min_dur"] + rng.choice((0, 5)) * win
         argv += ["-m", repr(m)]
         kw["max_dur"] = m
@@ -232,6 +241,23 @@ def build_argv(rng, rec, tmp, idx, allow_files=True, in_process=True):
             meta["o"] = os.path.join(d, rng.choice(("det_{id}.wav", "ev_{id}_{start:.3f}_{end:.3f}.wav", "d{id}_{duration:.2f}.raw", "x{id}_{duration}.wav", "y_{start}_{end}_{id}.raw")))
             argv += [rng.choice(("-o", "--save-detections-as")), meta["o"]]
     meta["audio_kw"] = dict(sampling_rate=rate, sample_width=width, channels=channels)
+    # numbers the way people and programs spell them: 1e-1, .5, 5., +0.3 - every spelling float() accepts for the same value
+    for i_ in range(1, len(argv)):
+        if argv[i_ - 1] in ("-a", "--analysis-window", "-n", "--min-duration", "-m", "--max-duration", "-s", "--max-silence", "-M", "--max-read", "-j", "--join-detections"):
+            try:
+                x = float(argv[i_])
+            except ValueError:
+                continue
+            cands = [argv[i_], format(x, ".17e"), "+" + argv[i_]]
+            if argv[i_].startswith("0.") and len(argv[i_]) > 2:
+                cands.append(argv[i_][1:])
+            if x == int(x) and "e" not in argv[i_] and "." in argv[i_]:
+                cands += [argv[i_].split(".")[0] + ".", str(int(x))]
+            cands = [c for c in cands if float(c) == x and not c.startswith("-")]
+            pick = cands[rng.randrange(len(cands))] if rng.random() < 0.35 else argv[i_]
+            if pick != argv[i_]:
+                meta["respelled_numbers"] = meta.get("respelled_numbers", 0) + 1
+            argv[i_] = pick
     return argv, kw, meta
 
 
